@@ -460,6 +460,10 @@ fn phase(net: &mut NetD, what: &str, bound_ms: u64, out: &mut CaseOut, rendered:
             continue;
         }
         let live = net.sc.segments[si].iter().filter(|e| !net.cut.contains(e) && net.nodes[e.0].child.is_some()).count();
+        let lost = net.sniffers[si].as_ref().map(|s| s.dropped()).unwrap_or(0);
+        if lost > 0 {
+            continue; // the sniffer missed frames (machine overloaded): no verdict from the wire for this segment
+        }
         if live > 0 && set.len() != 1 {
             out.fail(format!("daemons: a segment carries the Announces of {} ports in the steady state {}", if set.len() == 0 { "no" } else { "several" }, what), format!("segment {}: {:02x?} ; {}", si, set.iter().map(|x| (x.0[5], x.1)).collect::<Vec<_>>(), rendered));
             return None;
